@@ -19,9 +19,9 @@ RULE = (
     "backend.errors. non-trivial = history containing a conversion or a failure before the probe."
 )
 ASSUMPTIONS = ["fresh-equivalent setup is the reference", "errors compared by type and message", "random module seeded per history (library draws only name detections)"]
-MENU = ["loadW", "loadL", "convColl", "convW", "convL", "convN", "init", "newB", "newBshared", "convB_W", "convB_L", "F_pipe", "F_ph_neg", "F_cond"]
+MENU = ["loadW", "loadL", "convColl", "convW", "convL", "convN", "init", "newB", "newBshared", "convB_W", "convB_L", "optC", "F_pipe", "F_ph_neg", "F_cond"]
 BOUNDS = {"quick": dict(depth=4), "thorough": dict(depth=5)}
-PROBES = ("W", "L", "W2", "S")
+PROBES = ("W", "L", "W2", "S", "O")
 NOCS = frozenset(V.ALL_TEMPLATES)
 KCFG = V.K(not_eq=True, state_expr=True)
 
@@ -99,6 +99,8 @@ class World:
         self.cls._verif_initial["backend_processing_pipeline"] = self.cls.backend_processing_pipeline
         self.pipeA = ProcessingPipeline.from_dict(copy.deepcopy(USER_PIPE))
         self.A = self.cls(self.pipeA, collect_errors=True)
+        # a second backend class WITHOUT a backend pipeline (its instances differ only in backend options and user pipelines)
+        self.cls2 = V.make_backend_class(KCFG, fresh=True)
         self.B = None
         self.loaded = []
         self.trace = []
@@ -152,6 +154,9 @@ class World:
         elif ev == "convB_W":
             if self.B is not None:
                 self.conv(self.B, "W")
+        elif ev == "optC":  # an instance of the pipeline-less class with a backend option and no user pipeline converts a rule
+            c = self.cls2(None, collect_errors=True, index="secret")
+            self.conv(c, "W")
         elif ev == "convB_L":
             if self.B is not None:
                 self.conv(self.B, "L")
@@ -184,10 +189,19 @@ class World:
 _FRESH = {}
 
 
+def probe(w, kind):
+    if kind == "O":  # a new instance of the pipeline-less class, without backend options, whose pipeline renders the option variable
+        from sigma.processing.pipeline import ProcessingPipeline
+
+        po = ProcessingPipeline.from_dict({"name": "o", "priority": 5, "postprocessing": [{"id": "ppo", "type": "template", "template": "{{ query }} #opt={{ pipeline.vars.backend_index }}#"}]})
+        return w.conv(w.cls2(po, collect_errors=True), "W")
+    return w.conv(w.A, kind)
+
+
 def fresh_probe(kind):
     if kind not in _FRESH:
         w = World()
-        _FRESH[kind] = w.conv(w.A, kind)
+        _FRESH[kind] = probe(w, kind)
     return _FRESH[kind]
 
 
@@ -220,7 +234,7 @@ def judge(res, st, hist):
     if any(e.startswith(("conv", "F_")) for e in hist):
         res["nontrivial"].add(h64(hist))
     for kind in PROBES:
-        got = w.conv(w.A, kind)
+        got = probe(w, kind)
         exp = fresh_probe(kind)
         res["outcomes"].add(h64([kind, got == exp]))
         if got != exp:
@@ -244,7 +258,7 @@ def run_shard(shard, tier, seed):
             w = World()
             for ev in h:
                 w.event(ev)
-            return [w.canon(), [w.conv(w.A, k) for k in PROBES]]
+            return [w.canon(), [probe(w, k) for k in PROBES]]
         E.determinism_check(obs, E.histories(MENU, 2), limit=40)
         for h in E.histories(MENU, 1):
             judge(res, st, h)
